@@ -93,6 +93,11 @@ type Server struct {
 	reservationContext context.Context
 	reservationCancel  func()
 
+	// dispatchCancel cancels the DispatchCtx of the invoke dispatched for the current
+	// reservation; resetsInProgress > 0 while Reset() is tearing the sandbox down.
+	dispatchCancel   func()
+	resetsInProgress int
+
 	rapidPhase   rapidPhase
 	runtimeState runtimeState
 
@@ -225,11 +230,12 @@ func (s *Server) awaitInitCompletion() {
 	close(s.initFailures)
 }
 
-func (s *Server) setReplyStream(w http.ResponseWriter, direct bool) (string, error) {
+func (s *Server) setReplyStream(w http.ResponseWriter, direct bool, i *interop.Invoke) (string, error) {
 	s.mutex.Lock()
 	defer s.mutex.Unlock()
 
-	if s.invokeCtx == nil {
+	if s.invokeCtx == nil || s.resetsInProgress > 0 {
+		// no reservation, or it is being reset: nothing may be dispatched for it any more
 		return "", ErrNotReserved
 	}
 
@@ -243,7 +249,24 @@ func (s *Server) setReplyStream(w http.ResponseWriter, direct bool) (string, err
 
 	s.invokeCtx.ReplyStream = w
 	s.invokeCtx.Direct = direct
+	i.DispatchCtx, s.dispatchCancel = context.WithCancel(context.Background())
 	return s.invokeCtx.Token.InvokeID, nil
+}
+
+// beginReset marks the reservation as being reset and cancels the dispatch of its invoke.
+func (s *Server) beginReset() {
+	s.mutex.Lock()
+	defer s.mutex.Unlock()
+	s.resetsInProgress++
+	if s.dispatchCancel != nil {
+		s.dispatchCancel()
+	}
+}
+
+func (s *Server) endReset() {
+	s.mutex.Lock()
+	defer s.mutex.Unlock()
+	s.resetsInProgress--
 }
 
 // Release closes the invocation, making server ready for reserve again
@@ -257,6 +280,10 @@ func (s *Server) Release() error {
 
 	if s.reservationCancel != nil {
 		s.reservationCancel()
+	}
+	if s.dispatchCancel != nil {
+		s.dispatchCancel()
+		s.dispatchCancel = nil
 	}
 
 	s.sandboxContext.SetRuntimeStartedTime(-1)
@@ -391,6 +418,7 @@ func (s *Server) Reset(reason string, timeoutMs int64) (*statejson.ResetDescript
 		Reason:     reason,
 		DeadlineNs: deadlineNsFromTimeoutMs(timeoutMs),
 	}
+	s.beginReset()
 	go func() {
 		select {
 		case s.interruptedResponseChan <- reset:
@@ -401,6 +429,7 @@ func (s *Server) Reset(reason string, timeoutMs int64) (*statejson.ResetDescript
 
 		resetSuccess, resetFailure := s.sandboxContext.Reset(reset)
 		s.Clear() // clear server state to prepare for new invokes
+		s.endReset()
 		s.setRapidPhase(phaseIdle)
 		s.setRuntimeState(runtimeNotStarted)
 
@@ -528,7 +557,7 @@ func (s *Server) Init(i *interop.Init, invokeTimeoutMs int64) error {
 }
 
 func (s *Server) FastInvoke(w http.ResponseWriter, i *interop.Invoke, direct bool) error {
-	invokeID, err := s.setReplyStream(w, direct)
+	invokeID, err := s.setReplyStream(w, direct, i)
 	if err != nil {
 		return err
 	}
